@@ -7,6 +7,10 @@
       prepared.execute_mixed(&snapshot, &mut txn, params)?   -- `exec`  (reads `snapshot`, stages writes in `txn`)
       txn.commit()?                            -- `commit` (publishes the staged writes)
       -- `txn` dropped                         -- `unlock` (MutexGuard of write_lock released)
+  and nervusdb-storage/src/engine.rs `WriteTxn::commit(self)`: the writer guard `_guard` lives to the end of
+  `commit` — AFTER the publication stores (idmap, node labels, run) that later snapshots read — unless the
+  source drops it earlier; where the source releases it is the parameter `Cfg.earlyLabel / earlyPlain`
+  (regenerated `Generated.commitEarlyRelease*`): then the thread steps `unlock` BEFORE `commit`.
   The ORDER of the first two calls is not fixed here: it is the parameter `lockFirst`, which the
   driver and the theorems instantiate with `Generated.autoCommitLockFirst` (regenerated from the source).
 
@@ -23,6 +27,17 @@ namespace Nervus.SchedCapi
     committed state at commit time (`SET n.v = <value computed from the snapshot>`). -/
 structure Stmt (σ : Type) where
   run : σ → Option (σ → σ)
+  /-- the statement creates a node or adds/removes a label (`has_label_mutations` in `commit`) -/
+  labelMut : Bool := false
+
+/-- what the source says about the auto-commit path -/
+structure Cfg where
+  lockFirst : Bool          -- `begin_write()` before `snapshot()` in execute_write_count
+  earlyLabel : Bool := false  -- commit releases the writer guard before its publication stores (label-mutating tx)
+  earlyPlain : Bool := false  -- … for every other transaction
+  deriving DecidableEq, Repr
+
+def Cfg.early {σ} (c : Cfg) (st : Stmt σ) : Bool := if st.labelMut then c.earlyLabel else c.earlyPlain
 
 /-- what the statement does when it runs alone (snapshot = committed state) -/
 def Stmt.seq {σ} (st : Stmt σ) (d : σ) : σ :=
@@ -39,6 +54,7 @@ inductive Pc (σ : Type) where
   | locked                             -- writer lock held, snapshot not yet taken   (lock-first order)
   | ready (v : σ)                      -- lock held and snapshot taken
   | staged (w : Option (σ → σ))        -- statement executed against the snapshot
+  | released (w : Option (σ → σ))      -- lock released BEFORE the staged writes are published (early release)
   | finished                           -- committed / aborted, lock still held
 
 structure Thread (σ : Type) where
@@ -59,10 +75,10 @@ def setThread {σ} (s : State σ) (i : Nat) (t : Thread σ) : State σ :=
   { s with threads := fun j => if j = i then t else s.threads j }
 
 /-- one atomic step; `none` = not enabled -/
-def step {σ} (lockFirst : Bool) (s : State σ) : Label → Option (State σ)
+def step {σ} (cfg : Cfg) (s : State σ) : Label → Option (State σ)
   | .snap i =>
     match (s.threads i).pc, (s.threads i).todo with
-    | .idle, _ :: _ => if lockFirst then none else some (setThread s i { s.threads i with pc := .snapped s.db })
+    | .idle, _ :: _ => if cfg.lockFirst then none else some (setThread s i { s.threads i with pc := .snapped s.db })
     | .locked, _ => some (setThread s i { s.threads i with pc := .ready s.db })
     | _, _ => none
   | .lock i =>
@@ -70,7 +86,7 @@ def step {σ} (lockFirst : Bool) (s : State σ) : Label → Option (State σ)
     | some _ => none                   -- non-re-entrant mutex: blocked
     | none =>
       match (s.threads i).pc, (s.threads i).todo with
-      | .idle, _ :: _ => if lockFirst then some { setThread s i { s.threads i with pc := .locked } with lock := some i } else none
+      | .idle, _ :: _ => if cfg.lockFirst then some { setThread s i { s.threads i with pc := .locked } with lock := some i } else none
       | .snapped v, _ => some { setThread s i { s.threads i with pc := .ready v } with lock := some i }
       | _, _ => none
   | .exec i =>
@@ -80,69 +96,133 @@ def step {σ} (lockFirst : Bool) (s : State σ) : Label → Option (State σ)
   | .commit i =>
     match (s.threads i).pc, (s.threads i).todo with
     | .staged (some w), st :: rest =>
+      if cfg.early st then none else   -- the source releases the guard first
       some { setThread s i { todo := rest, pc := .finished } with db := w s.db, hist := s.hist ++ [(i, st)] }
     | .staged none, st :: rest =>
       some { setThread s i { todo := rest, pc := .finished } with hist := s.hist ++ [(i, st)] }
+    | .released (some w), st :: rest =>  -- publication WITHOUT the writer lock
+      some { setThread s i { todo := rest, pc := .idle } with db := w s.db, hist := s.hist ++ [(i, st)] }
+    | .released none, st :: rest =>
+      some { setThread s i { todo := rest, pc := .idle } with hist := s.hist ++ [(i, st)] }
     | _, _ => none
   | .unlock i =>
-    match (s.threads i).pc with
-    | .finished => some { setThread s i { s.threads i with pc := .idle } with lock := none }
-    | _ => none
+    match (s.threads i).pc, (s.threads i).todo with
+    | .finished, _ => some { setThread s i { s.threads i with pc := .idle } with lock := none }
+    | .staged (some w), st :: _ =>
+      if cfg.early st then some { setThread s i { s.threads i with pc := .released (some w) } with lock := none } else none
+    | _, _ => none
 
 def init {σ} (prog : Nat → List (Stmt σ)) (d0 : σ) : State σ :=
   { db := d0, lock := none, threads := fun i => { todo := prog i, pc := .idle }, hist := [] }
 
 /-- reachability: any number of threads, any interleaving, any length -/
-inductive Reach {σ} (lockFirst : Bool) (s0 : State σ) : State σ → Prop where
-  | refl : Reach lockFirst s0 s0
-  | step {s s'} (l : Label) : Reach lockFirst s0 s → step lockFirst s l = some s' → Reach lockFirst s0 s'
+inductive Reach {σ} (cfg : Cfg) (s0 : State σ) : State σ → Prop where
+  | refl : Reach cfg s0 s0
+  | step {s s'} (l : Label) : Reach cfg s0 s → step cfg s l = some s' → Reach cfg s0 s'
 
 /-- run a schedule (list of labels); `none` if some label is not enabled -/
-def runTrace {σ} (lockFirst : Bool) : State σ → List Label → Option (State σ)
+def runTrace {σ} (cfg : Cfg) : State σ → List Label → Option (State σ)
   | s, [] => some s
-  | s, l :: ls => match step lockFirst s l with
-    | some s' => runTrace lockFirst s' ls
+  | s, l :: ls => match step cfg s l with
+    | some s' => runTrace cfg s' ls
     | none => none
 
 /-- statements of thread `i` that have left the commit step, in order (ghost) -/
 def doneOf {σ} (s : State σ) (i : Nat) : List (Stmt σ) :=
   (s.hist.filter (fun p => p.1 == i)).map (·.2)
 
-/-- the labels of one complete statement of thread `i`, in the order of the source -/
-def stmtLabels (lockFirst : Bool) (i : Nat) : List Label :=
-  (if lockFirst then [.lock i, .snap i] else [.snap i, .lock i]) ++ [.exec i, .commit i, .unlock i]
+/-! ### a deterministic scheduler over the LTS (used by the driver and by the counterexamples) -/
 
-/-! ### the concrete instance used by the `capi_sched` stream: one counter `n.v` -/
+/-- the next label of thread `i`, from its program point -/
+def nextLabel {σ} (cfg : Cfg) (s : State σ) (i : Nat) : Option Label :=
+  match (s.threads i).pc, (s.threads i).todo with
+  | .idle, _ :: _ => some (if cfg.lockFirst then .lock i else .snap i)
+  | .idle, [] => none
+  | .snapped _, _ => some (.lock i)
+  | .locked, _ => some (.snap i)
+  | .ready _, _ => some (.exec i)
+  | .staged (some _), st :: _ => some (if cfg.early st then .unlock i else .commit i)
+  | .staged _, _ => some (.commit i)
+  | .released _, _ => some (.commit i)
+  | .finished, _ => some (.unlock i)
 
-/-- statement tokens of the stream: `inc`, `dbl`, `set<k>`, `cas<a>_<b>` -/
-inductive CStmt where
-  | inc | dbl | set (k : Int) | cas (a b : Int)
+/-- run thread `i` until `stop` holds of its program point, it blocks, or it has nothing left -/
+def runUntil {σ} (cfg : Cfg) (stop : Pc σ → Bool) : Nat → State σ → Nat → State σ
+  | 0, s, _ => s
+  | fuel + 1, s, i =>
+    if stop (s.threads i).pc then s else
+    match nextLabel cfg s i with
+    | none => s
+    | some l => match step cfg s l with
+      | some s' => runUntil cfg stop fuel s' i
+      | none => s          -- blocked on the writer lock
+
+def runToEnd {σ} (cfg : Cfg) (s : State σ) (i : Nat) : State σ := runUntil cfg (fun _ => false) 16 s i
+
+def threadDone {σ} (s : State σ) (i : Nat) : Bool :=
+  (s.threads i).todo.isEmpty && (match (s.threads i).pc with | .idle => true | _ => false)
+
+/-- where thread 0 is parked by the forced schedules of the `capi_sched` stream -/
+inductive Park where
+  | between      -- hook `capi.autocommit.between`: after the first of snapshot()/begin_write()
+  | inCommit     -- a hook inside `commit` that precedes the release of the writer guard
+  | afterRelease -- a hook inside `commit` after an early release, before `publish_run`
   deriving DecidableEq, Repr
 
-/-- `MATCH (n:C) [WHERE n.v = a] SET n.v = <expr over the snapshot>` — the staged write is the
-    absolute value computed from the snapshot -/
-def CStmt.toStmt : CStmt → Stmt Int
-  | .inc => ⟨fun v => some (fun _ => v + 1)⟩
-  | .dbl => ⟨fun v => some (fun _ => v * 2)⟩
-  | .set k => ⟨fun _ => some (fun _ => k)⟩
-  | .cas a b => ⟨fun v => some (fun d => if v = a then b else d)⟩
+def Park.stop {σ} : Park → Pc σ → Bool
+  | .between, .locked | .between, .snapped _ => true
+  | .inCommit, .staged _ => true
+  | .afterRelease, .released _ => true
+  | .afterRelease, .finished => true       -- no early release happened on this path: parked after publication
+  | _, _ => false
 
-def prog2 (a b : CStmt) : Nat → List (Stmt Int)
+/-- forced schedule: thread 0 runs to the park point, thread 1 runs its whole statement if it can,
+    thread 0 resumes, thread 1 finishes.  Result: final state and "thread 1 was blocked". -/
+def forced {σ} (cfg : Cfg) (park : Park) (s0 : State σ) : State σ × Bool :=
+  let s1 := runUntil cfg park.stop 16 s0 0
+  let s2 := runToEnd cfg s1 1
+  let blocked := !threadDone s2 1
+  let s3 := runToEnd cfg s2 0
+  (runToEnd cfg s3 1, blocked)
+
+/-! ### the concrete instance used by the `capi_sched` stream -/
+
+/-- what the stream observes: the counter `c.v`, the number of `:A` audit nodes, the number of
+    `:S {k:0}` and `:S {k:1}` nodes -/
+structure Db where
+  v : Int
+  a : Nat
+  s0 : Nat
+  s1 : Nat
+  deriving DecidableEq, Repr
+
+/-- statement tokens of the stream -/
+inductive CStmt where
+  | inc | dbl | set (k : Int) | cas (a b : Int)    -- `MATCH (c:C) [WHERE c.v = a] SET c.v = …` (no label mutation)
+  | incA                                            -- `MATCH (c:C) SET c.v = c.v + 1 CREATE (:A)`
+  | merge (k : Nat)                                 -- `MERGE (:S {k: k})`
+  | lab                                             -- `MATCH (c:C) SET c:Hot, c.v = c.v + 1` (label addition)
+  deriving DecidableEq, Repr
+
+/-- the staged writes are computed from the snapshot: absolute property values, node creations as deltas -/
+def CStmt.toStmt : CStmt → Stmt Db
+  | .inc => { run := fun d => some (fun c => { c with v := d.v + 1 }) }
+  | .dbl => { run := fun d => some (fun c => { c with v := d.v * 2 }) }
+  | .set k => { run := fun _ => some (fun c => { c with v := k }) }
+  | .cas a b => { run := fun d => some (fun c => if d.v = a then { c with v := b } else c) }
+  | .incA => { run := fun d => some (fun c => { c with v := d.v + 1, a := c.a + 1 }), labelMut := true }
+  | .merge k => { run := fun d => some (fun c =>
+      if k = 0 then (if d.s0 = 0 then { c with s0 := c.s0 + 1 } else c)
+      else (if d.s1 = 0 then { c with s1 := c.s1 + 1 } else c)), labelMut := true }
+  | .lab => { run := fun d => some (fun c => { c with v := d.v + 1 }), labelMut := true }
+
+def prog2 (a b : CStmt) : Nat → List (Stmt Db)
   | 0 => [a.toStmt]
   | 1 => [b.toStmt]
   | _ => []
 
-/-- The forced schedule of the stream's `race a b` line: thread 0 runs up to the hook point between
-    the two calls, thread 1 runs its whole statement if it can (it blocks when thread 0 holds the
-    lock), thread 0 resumes, thread 1 finishes.  Returns (final value, thread 1 was blocked). -/
-def raceSchedule (lockFirst : Bool) : List Label × Bool :=
-  if lockFirst then
-    ([.lock 0] ++ [.snap 0, .exec 0, .commit 0, .unlock 0] ++ stmtLabels true 1, true)
-  else
-    ([.snap 0] ++ stmtLabels false 1 ++ [.lock 0, .exec 0, .commit 0, .unlock 0], false)
-
-def race (lockFirst : Bool) (v0 : Int) (a b : CStmt) : Option (Int × Bool) :=
-  let (tr, blocked) := raceSchedule lockFirst
-  (runTrace lockFirst (init (prog2 a b) v0) tr).map (fun s => (s.db, blocked))
+def race (cfg : Cfg) (park : Park) (d0 : Db) (a b : CStmt) : Db × Bool :=
+  let (s, blocked) := forced cfg park (init (prog2 a b) d0)
+  (s.db, blocked)
 
 end Nervus.SchedCapi
